@@ -106,13 +106,20 @@ func dumpPanicSites(p *Prog) {
 
 // edgeEstablished: every path from the entry to `at` takes edge (iff, slot).
 func edgeEstablished(fn *ssa.Function, iff *ssa.If, slot int, at ssa.Instruction) bool {
-	b := iff.Block()
+	return edgeEstablishedAt(fn, ifInfo{in: iff}, slot, at)
+}
+
+// edgeEstablishedAt: same for a branch that may belong to a spliced helper (ii.site).
+func edgeEstablishedAt(fn *ssa.Function, ii ifInfo, slot int, at ssa.Instruction) bool {
+	b := ii.in.Block()
 	if at.Block() == b {
 		return false
 	}
-	reach := reachFrom([]*ssa.BasicBlock{fn.Blocks[0]}, map[Edge]bool{{b, slot}: true})
+	reach := reachFrom([]*ssa.BasicBlock{fn.Blocks[0]}, map[Edge]bool{{b, slot, ii.site}: true})
 	return !reach[at.Block()]
 }
+
+var lenOfActive = map[*ssa.Function]bool{}
 
 type lenFact struct {
 	min, max int // max < 0: unbounded
@@ -216,6 +223,44 @@ func (c *FC) lenOf(v ssa.Value, at ssa.Instruction, plens map[string]int) lenFac
 			}
 		}
 	}
+	// parameter of a NEW helper: what every call site guarantees about the argument
+	if prm, ok := v.(*ssa.Parameter); ok && c.p.newHelper(c.fn) && !lenOfActive[c.fn] {
+		lenOfActive[c.fn] = true
+		defer delete(lenOfActive, c.fn)
+		idx := -1
+		for i, q := range c.fn.Params {
+			if q == prm {
+				idx = i
+			}
+		}
+		callers := c.p.callersOf(c.fn)
+		if idx >= 0 && len(callers) > 0 && len(c.p.funcValueUses(c.fn)) == 0 {
+			res := lenFact{-1, 0, "argument at every call site"}
+			for caller, calls := range callers {
+				cc := &FC{p: c.p, r: c.r, fn: caller, x: c.p.tx(caller), name: funcName(caller)}
+				for _, call := range calls {
+					if idx >= len(call.Call.Args) {
+						return f
+					}
+					a := cc.lenOf(call.Call.Args[idx], call, plens)
+					if res.min < 0 || a.min < res.min {
+						res.min = a.min
+					}
+					if a.max < 0 || res.max < 0 {
+						res.max = -1
+					} else if a.max > res.max {
+						res.max = a.max
+					}
+					if a.why != "" {
+						res.why = "argument at every call site: " + a.why
+					}
+				}
+			}
+			if res.min >= 0 {
+				return res
+			}
+		}
+	}
 	t := c.x.Of(v, at).String()
 	// dependency fact: crypto.Ecrecover returns a 65-byte uncompressed key whenever its error is nil
 	if ex, ok := v.(*ssa.Extract); ok && ex.Index == 0 {
@@ -228,7 +273,7 @@ func (c *FC) lenOf(v ssa.Value, at ssa.Instruction, plens map[string]int) lenFac
 						if !ii.atom.Pol {
 							slot = 1
 						}
-						if edgeEstablished(c.fn, ii.in, slot, at) {
+						if edgeEstablishedAt(c.fn, ii, slot, at) {
 							return lenFact{65, 65, "crypto.Ecrecover returns 65 bytes when its error is nil (go-ethereum contract)"}
 						}
 					}
@@ -261,10 +306,10 @@ func (c *FC) lenOf(v ssa.Value, at ssa.Instruction, plens map[string]int) lenFac
 			if !ii.atom.Pol {
 				ltSlot, geSlot = 1, 0
 			}
-			if edgeEstablished(c.fn, ii.in, geSlot, at) && k > f.min {
+			if edgeEstablishedAt(c.fn, ii, geSlot, at) && k > f.min {
 				f.min, f.why = k, "guard "+key+" is false here"
 			}
-			if edgeEstablished(c.fn, ii.in, ltSlot, at) && (f.max < 0 || k-1 < f.max) {
+			if edgeEstablishedAt(c.fn, ii, ltSlot, at) && (f.max < 0 || k-1 < f.max) {
 				f.max, f.why = k-1, "guard "+key+" holds here"
 			}
 		default:
@@ -274,7 +319,7 @@ func (c *FC) lenOf(v ssa.Value, at ssa.Instruction, plens map[string]int) lenFac
 				if !ii.atom.Pol {
 					eqSlot = 1
 				}
-				if edgeEstablished(c.fn, ii.in, eqSlot, at) {
+				if edgeEstablishedAt(c.fn, ii, eqSlot, at) {
 					return lenFact{kk, kk, "guard " + key + " holds here"}
 				}
 			}
